@@ -1,6 +1,425 @@
 import RtcVerif.Model.C20BSpline
+import RtcVerif.Proofs.C20Lemmas
+import RtcVerif.Proofs.C20RevCache
+import Mathlib.Algebra.Order.Field.Basic
+import Mathlib.Tactic.Linarith
+import Mathlib.Tactic.Ring
+import Mathlib.Tactic.Positivity
+/-!
+# C20 — lookup tables evaluate, fit and invert their splines faithfully
+
+Property theorems (all knot vectors, orders, weights, evaluation points, target lists, edit /
+reload histories — unbounded).  Helper lemmas: `Proofs/C20Lemmas.lean`, `Proofs/C20RevCache.lean`.
+
+Conventions: `t : Nat → Rat` is the knot vector as an index function (`knotFn l` for a Python list
+`l`), `tl` is `t[-1]`; the hypotheses `Mono t` and `∀ j, t j ≤ tl` say that the knots never
+decrease and end at `tl` (`knotFn_mono`, `knotFn_le_last`: true for every sorted list).
+-/
 namespace RtcVerif.C20
 
+/-! ## the knot function of a sorted list satisfies the hypotheses -/
+
+theorem knotFn_mono {l : List Rat} (hs : l.Pairwise (· ≤ ·)) : Mono (knotFn l) := by
+  intro i j hij
+  by_cases hne : l = []
+  · subst hne; simp [knotFn]
+  have hpos : 0 < l.length := List.length_pos_iff.2 hne
+  have key : ∀ a b, a ≤ b → b < l.length → knotFn l a ≤ knotFn l b := by
+    intro a b hab hb
+    rw [knotFn_lt (by omega), knotFn_lt hb]
+    rcases Nat.lt_or_eq_of_le hab with h | h
+    · exact (List.pairwise_iff_getElem.1 hs) a b (by omega) hb h
+    · subst h; exact le_refl _
+  by_cases hj : j < l.length
+  · exact key i j hij hj
+  · rw [knotFn_ge (not_lt.1 hj) hne]
+    by_cases hi : i < l.length
+    · exact key i _ (by omega) (by omega)
+    · rw [knotFn_ge (not_lt.1 hi) hne]
+
+theorem knotFn_le_last {l : List Rat} (hs : l.Pairwise (· ≤ ·)) (j : Nat) :
+    knotFn l j ≤ knotFn l (l.length - 1) := by
+  by_cases hne : l = []
+  · subst hne; simp [knotFn]
+  by_cases hj : j < l.length
+  · exact knotFn_mono hs j _ (by omega)
+  · rw [knotFn_ge (not_lt.1 hj) hne]
+
+/-! ## evaluation -/
+
+/-- **Local support.**  `B_{i,k}(x) = 0` outside `[t_i, t_{i+k+1})` (the right end point belongs
+    to the support only at `t[-1]`, for a non-empty span ending there). -/
+theorem basis_local_support (t : Nat → Rat) (tl x : Rat) (hm : Mono t) (hl : ∀ j, t j ≤ tl)
+    (k i : Nat) (h : x < t i ∨ t (i + k + 1) < x ∨ (x = t (i + k + 1) ∧ x ≠ tl)) :
+    basis t tl x k i = 0 := by
+  apply basis_eq_zero_of_not_inSupport hm hl
+  rintro ⟨h1, h2⟩
+  rcases h with h | h | ⟨h, h'⟩
+  · exact absurd h1 (not_le.2 h)
+  · rcases h2 with h2 | ⟨h2, h3, _⟩
+    · exact absurd h (not_lt.2 (le_of_lt h2))
+    · rw [h2, h3] at h; exact lt_irrefl _ h
+  · rcases h2 with h2 | ⟨h2, _, _⟩
+    · rw [h] at h2; exact lt_irrefl _ h2
+    · exact h' h2
+
+/-- an empty knot span (`t_i = t_{i+k+1}`, repeated knots) carries no basis function -/
+theorem basis_repeated_knots_zero (t : Nat → Rat) (tl x : Rat) (hm : Mono t) (hl : ∀ j, t j ≤ tl)
+    (k i : Nat) (h : t i = t (i + k + 1)) : basis t tl x k i = 0 :=
+  basis_eq_zero_of_empty_span hm hl k i (by rw [h]; exact lt_irrefl _)
+
+/-- **The outer window of `BSpline1D.__call__` is redundant**: the code's sum is the reference
+    spline `Σ_i w_i B_{i,k}(x)`, at every `x`. -/
+theorem spline1d_eq_reference (t : Nat → Rat) (n : Nat) (w : Nat → Rat) (k : Nat) (x : Rat)
+    (hm : Mono t) (hl : ∀ j, t j ≤ t (n - 1)) :
+    spline1d t n w k x = splineRef t n w k x := by
+  unfold spline1d splineRef
+  apply sumN_congr
+  intro i _
+  unfold term1d
+  split
+  · rfl
+  · rename_i hw
+    rw [basis_eq_zero_of_not_inSupport hm hl k i]
+    · simp
+    · rintro ⟨h1, h2 | ⟨h2, h3, _⟩⟩
+      · exact hw ⟨h1, le_of_lt h2⟩
+      · exact hw ⟨h1, by rw [h2, h3]⟩
+
+/-- the same for the tensor form of `BSpline2D.__call__` -/
+theorem spline2d_eq_reference (tx : Nat → Rat) (nx : Nat) (ty : Nat → Rat) (ny : Nat)
+    (w : Nat → Rat) (kx ky : Nat) (x y : Rat)
+    (hmx : Mono tx) (hlx : ∀ j, tx j ≤ tx (nx - 1)) (hmy : Mono ty) (hly : ∀ j, ty j ≤ ty (ny - 1)) :
+    spline2d tx nx ty ny w kx ky x y = spline2dRef tx nx ty ny w kx ky x y := by
+  unfold spline2d spline2dRef
+  apply sumN_congr
+  intro i _
+  apply sumN_congr
+  intro j _
+  rw [wbasis_eq_basis tx _ x hmx hlx, wbasis_eq_basis ty _ y hmy hly]
+
+/-- **Non-negativity** of every basis function, at every point. -/
+theorem basis_nonneg (t : Nat → Rat) (tl x : Rat) (hm : Mono t) (hl : ∀ j, t j ≤ tl)
+    (k i : Nat) : 0 ≤ basis t tl x k i :=
+  basis_nonneg' hm hl k i
+
+/-- **Partition of unity** (full statement).  For a knot vector of length `n` and order `k` the
+    `n - k - 1` basis functions the code sums add up to one on `[t_k, t_{n-k-1})`, and also at the
+    right end point `x = t[-1]` when the knot vector is clamped there (`t_{n-k-1} = t[-1]`, the
+    closed last interval of the repaired recursion). -/
+theorem basis_partition_of_unity (t : Nat → Rat) (n k : Nat) (x : Rat) (hm : Mono t)
+    (hl : ∀ j, t j ≤ t (n - 1))
+    (hx : t k ≤ x ∧ (x < t (n - k - 1) ∨ (x = t (n - 1) ∧ t (n - k - 1) = t (n - 1) ∧ t k < t (n - 1)))) :
+    sumN (n - k - 1) (fun i => basis t (t (n - 1)) x k i) = 1 := by
+  have h := sum_basis_eq_one hm hl k 0 (n - k - 1)
+    (by unfold InDomain; simpa only [Nat.zero_add] using hx)
+  simpa only [Nat.zero_add] using h
+
+/-- partition of unity for any block of consecutive basis functions -/
+theorem basis_partition_of_unity_range (t : Nat → Rat) (tl x : Rat) (hm : Mono t)
+    (hl : ∀ j, t j ≤ tl) (k a m : Nat) (hx : InDomain t tl x k a (a + m)) :
+    sumN m (fun i => basis t tl x k (a + i)) = 1 :=
+  sum_basis_eq_one hm hl k a m hx
+
+/-- **Coefficient hull.**  On its domain the spline the code evaluates lies between the smallest
+    and the largest coefficient. -/
+theorem spline_in_coefficient_hull (t : Nat → Rat) (n : Nat) (w : Nat → Rat) (k : Nat) (x lo hi : Rat)
+    (hm : Mono t) (hl : ∀ j, t j ≤ t (n - 1))
+    (hx : t k ≤ x ∧ (x < t (n - k - 1) ∨ (x = t (n - 1) ∧ t (n - k - 1) = t (n - 1) ∧ t k < t (n - 1))))
+    (hw : ∀ i, i < n - k - 1 → lo ≤ w i ∧ w i ≤ hi) :
+    lo ≤ spline1d t n w k x ∧ spline1d t n w k x ≤ hi := by
+  rw [spline1d_eq_reference t n w k x hm hl]
+  unfold splineRef
+  have hone := basis_partition_of_unity t n k x hm hl hx
+  have hnn : ∀ i, 0 ≤ basis t (t (n - 1)) x k i := fun i => basis_nonneg' hm hl k i
+  constructor
+  · have h1 : sumN (n - k - 1) (fun i => lo * basis t (t (n - 1)) x k i)
+        ≤ sumN (n - k - 1) (fun i => w i * basis t (t (n - 1)) x k i) :=
+      sumN_le (fun i hi => mul_le_mul_of_nonneg_right (hw i hi).1 (hnn i))
+    rw [sumN_mul_left, hone, mul_one] at h1
+    exact h1
+  · have h1 : sumN (n - k - 1) (fun i => w i * basis t (t (n - 1)) x k i)
+        ≤ sumN (n - k - 1) (fun i => hi * basis t (t (n - 1)) x k i) :=
+      sumN_le (fun i hi' => mul_le_mul_of_nonneg_right (hw i hi').2 (hnn i))
+    rw [sumN_mul_left, hone, mul_one] at h1
+    exact h1
+
+/-- a table with constant coefficients is that constant on its domain -/
+theorem spline_reproduces_constants (t : Nat → Rat) (n k : Nat) (x c : Rat)
+    (hm : Mono t) (hl : ∀ j, t j ≤ t (n - 1))
+    (hx : t k ≤ x ∧ (x < t (n - k - 1) ∨ (x = t (n - 1) ∧ t (n - k - 1) = t (n - 1) ∧ t k < t (n - 1)))) :
+    spline1d t n (fun _ => c) k x = c := by
+  have h := spline_in_coefficient_hull t n (fun _ => c) k x c c hm hl hx (fun _ _ => ⟨le_refl _, le_refl _⟩)
+  exact le_antisymm h.2 h.1
+
+/-- the coefficient hull for the tensor form (2-D tables) -/
+theorem spline2d_in_coefficient_hull (tx : Nat → Rat) (nx : Nat) (ty : Nat → Rat) (ny : Nat)
+    (w : Nat → Rat) (kx ky : Nat) (x y lo hi : Rat)
+    (hmx : Mono tx) (hlx : ∀ j, tx j ≤ tx (nx - 1)) (hmy : Mono ty) (hly : ∀ j, ty j ≤ ty (ny - 1))
+    (hx : tx kx ≤ x ∧ (x < tx (nx - kx - 1) ∨
+      (x = tx (nx - 1) ∧ tx (nx - kx - 1) = tx (nx - 1) ∧ tx kx < tx (nx - 1))))
+    (hy : ty ky ≤ y ∧ (y < ty (ny - ky - 1) ∨
+      (y = ty (ny - 1) ∧ ty (ny - ky - 1) = ty (ny - 1) ∧ ty ky < ty (ny - 1))))
+    (hw : ∀ i j, i < nx - kx - 1 → j < ny - ky - 1 →
+      lo ≤ w (i * (ny - ky - 1) + j) ∧ w (i * (ny - ky - 1) + j) ≤ hi) :
+    lo ≤ spline2d tx nx ty ny w kx ky x y ∧ spline2d tx nx ty ny w kx ky x y ≤ hi := by
+  rw [spline2d_eq_reference tx nx ty ny w kx ky x y hmx hlx hmy hly]
+  unfold spline2dRef
+  have honex := basis_partition_of_unity tx nx kx x hmx hlx hx
+  have honey := basis_partition_of_unity ty ny ky y hmy hly hy
+  have hnx : ∀ i, 0 ≤ basis tx (tx (nx - 1)) x kx i := fun i => basis_nonneg' hmx hlx kx i
+  have hny : ∀ j, 0 ≤ basis ty (ty (ny - 1)) y ky j := fun j => basis_nonneg' hmy hly ky j
+  -- the inner sum with a constant weight
+  have inner : ∀ (c : Rat) (i : Nat),
+      sumN (ny - ky - 1) (fun j => c * basis tx (tx (nx - 1)) x kx i * basis ty (ty (ny - 1)) y ky j)
+        = c * basis tx (tx (nx - 1)) x kx i := by
+    intro c i
+    rw [sumN_mul_left, honey, mul_one]
+  constructor
+  · have h1 : sumN (nx - kx - 1) (fun i => lo * basis tx (tx (nx - 1)) x kx i)
+        ≤ sumN (nx - kx - 1) (fun i => sumN (ny - ky - 1) (fun j =>
+            w (i * (ny - ky - 1) + j) * basis tx (tx (nx - 1)) x kx i * basis ty (ty (ny - 1)) y ky j)) := by
+      apply sumN_le
+      intro i hi'
+      rw [← inner lo i]
+      apply sumN_le
+      intro j hj
+      exact mul_le_mul_of_nonneg_right
+        (mul_le_mul_of_nonneg_right (hw i j hi' hj).1 (hnx i)) (hny j)
+    rw [sumN_mul_left, honex, mul_one] at h1
+    exact h1
+  · have h1 : sumN (nx - kx - 1) (fun i => sumN (ny - ky - 1) (fun j =>
+            w (i * (ny - ky - 1) + j) * basis tx (tx (nx - 1)) x kx i * basis ty (ty (ny - 1)) y ky j))
+        ≤ sumN (nx - kx - 1) (fun i => hi * basis tx (tx (nx - 1)) x kx i) := by
+      apply sumN_le
+      intro i hi'
+      rw [← inner hi i]
+      apply sumN_le
+      intro j hj
+      exact mul_le_mul_of_nonneg_right
+        (mul_le_mul_of_nonneg_right (hw i j hi' hj).2 (hnx i)) (hny j)
+    rw [sumN_mul_left, honex, mul_one] at h1
+    exact h1
+
+/-- the list front end (what the driver runs): a sorted knot list, enough weights, a point of the
+    domain — the call succeeds and its value lies in the hull of the weights used -/
+theorem spline1dL_in_coefficient_hull (t w : List Rat) (k : Nat) (x lo hi : Rat)
+    (hs : t.Pairwise (· ≤ ·)) (hlen : t.length - k - 1 ≤ w.length)
+    (hx : knotFn t k ≤ x ∧ (x < knotFn t (t.length - k - 1) ∨
+      (x = knotFn t (t.length - 1) ∧ knotFn t (t.length - k - 1) = knotFn t (t.length - 1)
+        ∧ knotFn t k < knotFn t (t.length - 1))))
+    (hw : ∀ v ∈ w, lo ≤ v ∧ v ≤ hi) :
+    ∃ v, spline1dL t w k x = some v ∧ lo ≤ v ∧ v ≤ hi := by
+  unfold spline1dL
+  rw [if_pos hlen]
+  refine ⟨_, rfl, ?_⟩
+  apply spline_in_coefficient_hull (knotFn t) t.length (knotFn w) k x lo hi (knotFn_mono hs)
+    (knotFn_le_last hs) hx
+  intro i hi'
+  have hiw : i < w.length := lt_of_lt_of_le hi' hlen
+  rw [knotFn_lt hiw]
+  exact hw _ (List.getElem_mem hiw)
+
+/-- finding F28 (before commit 05a1cee): with half-open intervals only, a clamped table is zero at
+    its last knot, where the repaired recursion gives the last coefficient -/
+theorem legacy_zero_at_last_knot_witness :
+    spline1dLegacy (knotFn [0, 0, 1, 1]) 4 (knotFn [5, 7]) 1 1 = 0
+    ∧ spline1d (knotFn [0, 0, 1, 1]) 4 (knotFn [5, 7]) 1 1 = 7 := by
+  decide +kernel
+
+/-! ## fitted curves: monotone coefficients give a monotone table -/
+
+/-- **Derivative by coefficient differences** (Abel summation).  On the domain of a spline of order
+    `k + 1` with `m + 1` coefficients the derivative formula equals
+    `Σ_{i<m} (k+1)(w_{i+1} - w_i)/(t_{i+k+2} - t_{i+1}) B_{i+1,k}(x)`. -/
+theorem dspline_eq_coefficient_differences (t : Nat → Rat) (tl x : Rat) (hm : Mono t)
+    (hl : ∀ j, t j ≤ tl) (w : Nat → Rat) (k m : Nat) (hx : InDomain t tl x (k + 1) 0 (m + 1)) :
+    sumN (m + 1) (fun i => w i * dbasis t tl x 1 (k + 1) i) = dsplineDiff t tl m w k x := by
+  obtain ⟨h1, h2⟩ := hx
+  have hB0 : basis t tl x k 0 = 0 := by
+    apply basis_eq_zero_of_not_inSupport hm hl
+    rintro ⟨_, g2 | ⟨g2, g3, _⟩⟩
+    · exact absurd h1 (not_le.2 g2)
+    · rcases h2 with h2 | ⟨_, _, h4⟩
+      · rw [g2] at h2; exact absurd (hl _) (not_le.2 h2)
+      · rw [show 0 + (k + 1) = 0 + k + 1 from rfl, g3] at h4; exact lt_irrefl _ h4
+  have hB1 : basis t tl x k (m + 1) = 0 := by
+    apply basis_eq_zero_of_not_inSupport hm hl
+    rintro ⟨g1, g2 | ⟨_, _, g4⟩⟩
+    · rcases h2 with h2 | ⟨h2, _, _⟩
+      · exact absurd g1 (not_le.2 h2)
+      · rw [h2] at g2; exact absurd (hl _) (not_le.2 g2)
+    · rcases h2 with h2 | ⟨_, h3, _⟩
+      · exact absurd g1 (not_le.2 h2)
+      · rw [h3] at g4; exact lt_irrefl _ g4
+  have hE0 : scaledBasis t tl x k 0 = 0 := by unfold scaledBasis; rw [hB0]; simp
+  have hE1 : scaledBasis t tl x k (m + 1) = 0 := by unfold scaledBasis; rw [hB1]; simp
+  have hL : sumN (m + 1) (fun i => w i * dbasis t tl x 1 (k + 1) i)
+      = ((k : Rat) + 1) * sumN (m + 1) (fun i => w i * (scaledBasis t tl x k i - scaledBasis t tl x k (i + 1))) := by
+    rw [← sumN_mul_left]
+    apply sumN_congr
+    intro i _
+    rw [dbasis_one]; ring
+  rw [hL, sumN_abel, hE0, hE1]
+  unfold dsplineDiff
+  have : ((k : Rat) + 1) * (w 0 * 0 - w m * 0 + sumN m (fun i => (w (i + 1) - w i) * scaledBasis t tl x k (i + 1)))
+      = sumN m (fun i => ((k : Rat) + 1) * ((w (i + 1) - w i) * scaledBasis t tl x k (i + 1))) := by
+    rw [sumN_mul_left]; ring
+  rw [this]
+  apply sumN_congr
+  intro i _
+  have e : i + 1 + k + 1 = i + k + 2 := by omega
+  unfold scaledBasis
+  rw [e]
+  split
+  · ring
+  · ring
+
+/-- **Increasing coefficients give a non-negative slope everywhere on the domain** — this is why
+    `BSpline1D.fit` may impose monotonicity on the coefficient differences only. -/
+theorem increasing_coefficients_slope_nonneg (t : Nat → Rat) (n : Nat) (w : Nat → Rat) (k m : Nat)
+    (x : Rat) (hm : Mono t) (hl : ∀ j, t j ≤ t (n - 1)) (hn : n - (k + 1) - 1 = m + 1)
+    (hx : InDomain t (t (n - 1)) x (k + 1) 0 (m + 1)) (hw : ∀ i, i < m → w i ≤ w (i + 1)) :
+    0 ≤ dspline1d t n w (k + 1) 1 x := by
+  unfold dspline1d
+  rw [hn, dspline_eq_coefficient_differences t _ x hm hl w k m hx]
+  unfold dsplineDiff
+  apply sumN_nonneg
+  intro i hi
+  split
+  · rename_i hg
+    have hk : (0 : Rat) ≤ (k : Rat) + 1 := by positivity
+    exact mul_nonneg (div_nonneg (mul_nonneg hk (sub_nonneg.2 (hw i hi))) (le_of_lt (sub_pos.2 hg)))
+      (basis_nonneg' hm hl k (i + 1))
+  · exact le_refl _
+
+/-- decreasing coefficients give a non-positive slope everywhere on the domain -/
+theorem decreasing_coefficients_slope_nonpos (t : Nat → Rat) (n : Nat) (w : Nat → Rat) (k m : Nat)
+    (x : Rat) (hm : Mono t) (hl : ∀ j, t j ≤ t (n - 1)) (hn : n - (k + 1) - 1 = m + 1)
+    (hx : InDomain t (t (n - 1)) x (k + 1) 0 (m + 1)) (hw : ∀ i, i < m → w (i + 1) ≤ w i) :
+    dspline1d t n w (k + 1) 1 x ≤ 0 := by
+  unfold dspline1d
+  rw [hn, dspline_eq_coefficient_differences t _ x hm hl w k m hx]
+  unfold dsplineDiff
+  have : sumN m (fun i => if t (i + 1) < t (i + k + 2) then
+      ((k : Rat) + 1) * (w (i + 1) - w i) / (t (i + k + 2) - t (i + 1)) * basis t (t (n - 1)) x k (i + 1)
+      else 0) ≤ sumN m (fun _ => 0) := by
+    apply sumN_le
+    intro i hi
+    split
+    · rename_i hg
+      have hk : (0 : Rat) ≤ (k : Rat) + 1 := by positivity
+      have hd : (0 : Rat) < t (i + k + 2) - t (i + 1) := sub_pos.2 hg
+      have h1 : ((k : Rat) + 1) * (w (i + 1) - w i) ≤ 0 :=
+        mul_nonpos_of_nonneg_of_nonpos hk (sub_nonpos.2 (hw i hi))
+      exact mul_nonpos_of_nonpos_of_nonneg (div_nonpos_of_nonpos_of_nonneg h1 (le_of_lt hd))
+        (basis_nonneg' hm hl k (i + 1))
+    · exact le_refl _
+  rw [sumN_zero (fun _ _ => rfl)] at this
+  exact this
+
+/-! ## inverse lookup -/
+
+/-- **Soundness of `reverse_call`.**  Whatever the root finder does within its contract (residual
+    tolerance `ε`): if the call returns, the result has one entry per input, NaN inputs give NaN,
+    and every other entry is an `x` inside the search domain with `|f x - y| ≤ ε`. -/
+theorem reverse_call_sound (c : RevCfg) (root : Root) (ε : Rat) (hr : RootSound ε root)
+    (ys xs : List Y) (h : reverseCall c root ys = .ok xs) :
+    List.Forall₂ (fun y x => match y with
+      | none => x = none
+      | some q => ∃ r, x = some r ∧ c.lo ≤ r ∧ r ≤ c.hi ∧ -ε ≤ c.f r - q ∧ c.f r - q ≤ ε) ys xs := by
+  unfold reverseCall at h
+  split at h
+  · cases h
+  · exact invertAll_sound hr ys xs h
+
+/-- with an exact root finder the returned `x` has `f x = y` exactly -/
+theorem reverse_call_sound_exact (c : RevCfg) (root : Root) (hr : RootSound 0 root)
+    (ys xs : List Y) (h : reverseCall c root ys = .ok xs) :
+    List.Forall₂ (fun y x => match y with
+      | none => x = none
+      | some q => ∃ r, x = some r ∧ c.lo ≤ r ∧ r ≤ c.hi ∧ c.f r = q) ys xs := by
+  refine List.Forall₂.imp ?_ (reverse_call_sound c root 0 hr ys xs h)
+  intro y x hyx
+  cases y with
+  | none => exact hyx
+  | some q =>
+    obtain ⟨r, h1, h2, h3, h4, h5⟩ := hyx
+    exact ⟨r, h1, h2, h3, by linarith⟩
+
+/-- NaN in, NaN out (scalar form) -/
+theorem reverse_call_nan (c : RevCfg) (root : Root) : reverseCall c root [none] = .ok [none] := by
+  unfold reverseCall finiteOf
+  simp [invertAll, invertOne]
+
+/-- **Values outside the range are rejected**, for increasing and for decreasing tables alike (the
+    range is `sorted(self.range)`); nothing is returned for the other entries either. -/
+theorem reverse_call_rejects_outside (c : RevCfg) (root : Root) (ys : List Y) (q : Rat)
+    (hd : c.detect = true) (hq : some q ∈ ys)
+    (hout : q < min (c.f c.dl) (c.f c.du) ∨ max (c.f c.dl) (c.f c.du) < q) :
+    reverseCall c root ys = .error .range := by
+  unfold reverseCall
+  have : (finiteOf ys).any (fun q => decide (q < c.rangeLo) || decide (c.rangeHi < q)) = true := by
+    rw [List.any_eq_true]
+    refine ⟨q, mem_finiteOf.2 hq, ?_⟩
+    unfold RevCfg.rangeLo RevCfg.rangeHi
+    rcases hout with h | h <;> simp [h]
+  rw [hd, this]
+  rfl
+
+/-- **Every value in the range is inverted** (default search domain, root finder complete on the
+    sign-changing brackets of this table), for increasing and decreasing tables. -/
+theorem reverse_call_accepts_in_range (c : RevCfg) (root : Root) (ε : Rat) (hr : RootSound ε root)
+    (hcomp : RootCompleteFor c.f root) (ys : List Y) (hdom : c.ld = none ∧ c.ud = none)
+    (hle : c.dl ≤ c.du)
+    (hin : ∀ q, some q ∈ ys → min (c.f c.dl) (c.f c.du) ≤ q ∧ q ≤ max (c.f c.dl) (c.f c.du)) :
+    ∃ xs, reverseCall c root ys = .ok xs ∧
+      List.Forall₂ (fun y x => match y with
+        | none => x = none
+        | some q => ∃ r, x = some r ∧ c.dl ≤ r ∧ r ≤ c.du ∧ -ε ≤ c.f r - q ∧ c.f r - q ≤ ε) ys xs := by
+  have hlo : c.lo = c.dl := by unfold RevCfg.lo; rw [hdom.1]; rfl
+  have hhi : c.hi = c.du := by unfold RevCfg.hi; rw [hdom.2]; rfl
+  have hno : (finiteOf ys).any (fun q => decide (q < c.rangeLo) || decide (c.rangeHi < q)) = false := by
+    rw [Bool.eq_false_iff]
+    intro hany
+    rw [List.any_eq_true] at hany
+    obtain ⟨q, hq, hb⟩ := hany
+    obtain ⟨h1, h2⟩ := hin q (mem_finiteOf.1 hq)
+    unfold RevCfg.rangeLo RevCfg.rangeHi at hb
+    simp at hb
+    rcases hb with hb | hb
+    · exact absurd h1 (not_le.2 (lt_min hb.1 hb.2))
+    · exact absurd h2 (not_le.2 (max_lt hb.1 hb.2))
+  have htot : ∃ xs, invertAll c root ys = .ok xs := by
+    apply invertAll_total
+    intro q hq
+    obtain ⟨h1, h2⟩ := hin q hq
+    apply hcomp
+    · rw [hlo, hhi]; exact hle
+    · rw [hlo, hhi]; exact bracket_of_between h1 h2
+  obtain ⟨xs, hxs⟩ := htot
+  have hcall : reverseCall c root ys = .ok xs := by
+    unfold reverseCall
+    rw [hno]
+    simpa using hxs
+  refine ⟨xs, hcall, ?_⟩
+  have := reverse_call_sound c root ε hr ys xs hcall
+  rw [hlo, hhi] at this
+  exact this
+
+/-- finding F8a (before commit 0fbac02): the range check in domain order rejects every interior
+    value of a decreasing table; the repaired check accepts it -/
+theorem legacy_range_check_rejects_decreasing_witness :
+    let c : RevCfg := { f := fun x => 10 - 2 * x, dl := 0, du := 3, ld := none, ud := none, detect := true }
+    let root : Root := fun g a _ => some (a + g a / 2)
+    reverseCallLegacy c root [some 6] = .error .range ∧ reverseCall c root [some 6] = .ok [some 2] := by
+  decide +kernel
+
+/-! ## fit cache -/
+
+/-- **The reuse decision of `pre()`**: the cached fit is loaded exactly when the `.npz` exists, is
+    strictly newer than the csv, strictly newer than the options file (when there is one), and
+    can be read. -/
 theorem cache_reuse_iff_newer (F : Files) :
     validCache F = true ↔
       ∃ m, F.npz = some m ∧ F.csvM < m ∧ (∀ i, F.ini = some i → i < m) ∧ F.loadable = true := by
@@ -11,5 +430,131 @@ theorem cache_reuse_iff_newer (F : Files) :
     cases hi : F.ini with
     | none => simp
     | some i => simp [and_assoc]
+
+/-- finding F8b (before commit 7cfb877): a cache without an options file made the check raise -/
+theorem legacy_cache_check_raises_witness :
+    validCacheLegacy { csvM := 1, ini := none, npz := some 5, loadable := true } = none
+    ∧ validCache { csvM := 1, ini := none, npz := some 5, loadable := true } = true := by
+  decide
+
+/-- one `pre()`: the table handed out is the fit of the current data and options, and it comes
+    from the cache exactly when the cache is newer (`cache_reuse_iff_newer`) -/
+theorem pre_serves_current (T : Nat) (s : St) (hinv : CacheInv T s) (τ : Nat) :
+    ∃ b, (step s (τ, .pre)).served = s.served ++ [(s.current, b)]
+      ∧ (b = true ↔ validCache s.files = true) :=
+  let ⟨b, h1, h2, _⟩ := step_pre_served hinv τ
+  ⟨b, h1, h2⟩
+
+/-- **Every edit-and-reload history** (csv edits, options edits, damaged cache files, reloads, with
+    time stamps that never go backwards — equal stamps allowed): each `pre()` hands out the fit of
+    the data and options that are current at that moment; a cached fit is never served stale. -/
+theorem served_is_current : ∀ (evs : List (Nat × Ev)) (T : Nat) (s : St), CacheInv T s → Chrono T evs →
+    (∀ e ∈ evs, e.2 ≠ Ev.delIni) →
+    (run s evs).served.map Prod.fst = s.served.map Prod.fst ++ specServed s.current evs := by
+  intro evs
+  induction evs with
+  | nil => intro T s _ _ _; simp [run, specServed]
+  | cons e rest ih =>
+    intro T s hinv hch hno
+    obtain ⟨τ, ev⟩ := e
+    obtain ⟨hτ, hrest⟩ := hch
+    have hne : ev ≠ Ev.delIni := hno (τ, ev) (List.mem_cons_self)
+    have hinv' := step_inv hinv τ hτ ev hne
+    have hrec := ih τ (step s (τ, ev)) hinv' hrest (fun e he => hno e (List.mem_cons_of_mem _ he))
+    have hrun : run s ((τ, ev) :: rest) = run (step s (τ, ev)) rest := rfl
+    rw [hrun, hrec]
+    cases ev with
+    | delIni => exact absurd rfl hne
+    | pre =>
+      obtain ⟨b, h1, _, h3⟩ := step_pre_served hinv τ
+      rw [h1, h3]
+      simp [specServed]
+    | editCsv d => rfl
+    | editIni o => rfl
+    | corrupt =>
+      have hcur : (step s (τ, Ev.corrupt)).current = s.current := rfl
+      rw [step_served_of_ne_pre s τ Ev.corrupt (by decide), hcur]
+      rfl
+
+/-- a fresh folder (no cache yet) satisfies the invariant -/
+theorem fresh_folder_inv (T : Nat) (s : St) (h : s.cache = none) : CacheInv T s := by
+  intro id m l hc
+  rw [h] at hc
+  cases hc
+
+/-- candidate finding F29 (current code): removing the options file does not invalidate a cache
+    that was fitted with its options — the second `pre()` serves the fit for options `1` from the
+    cache although the options are now the defaults -/
+theorem ini_deletion_serves_stale_witness :
+    let s0 : St := { data := 1, csvM := 1, ini := some (1, 2), cache := none, served := [] }
+    let s := run s0 [(10, .pre), (20, .delIni), (30, .pre)]
+    s.served = [((1, some 1), false), ((1, some 1), true)] ∧ s.current = (1, none) := by
+  decide
+
+/-! ## non-vacuity: concrete instances satisfying the hypotheses -/
+
+example : List.Pairwise (· ≤ ·) ([0, 0, 0, 0, 1, 3, 3, 3, 3] : List Rat) := by decide +kernel
+
+/-- an interior point and the right end point of a clamped cubic table are in the domain -/
+example :
+    let t := knotFn [0, 0, 0, 0, 1, 3, 3, 3, 3]
+    (t 3 ≤ (1 / 2 : Rat) ∧ ((1 / 2 : Rat) < t (9 - 3 - 1) ∨ ((1 / 2 : Rat) = t 8 ∧ t (9 - 3 - 1) = t 8 ∧ t 3 < t 8)))
+    ∧ (t 3 ≤ (3 : Rat) ∧ ((3 : Rat) < t (9 - 3 - 1) ∨ ((3 : Rat) = t 8 ∧ t (9 - 3 - 1) = t 8 ∧ t 3 < t 8))) := by
+  decide +kernel
+
+example : spline1dL [0, 0, 0, 0, 1, 3, 3, 3, 3] [1, 2, 3, 4, 5] 3 (1 / 2) = some (25 / 12) := by
+  decide +kernel
+
+example : spline1dL [0, 0, 0, 0, 1, 3, 3, 3, 3] [1, 2, 3, 4, 5] 3 3 = some 5 := by
+  decide +kernel
+
+example : InDomain (knotFn [0, 0, 0, 0, 1, 3, 3, 3, 3]) 3 (1 / 2) 3 0 5 := by
+  unfold InDomain; decide +kernel
+
+/-- a root oracle satisfying both contracts exists (exact inverse of an affine, decreasing table;
+    every answer is verified before it is returned, so it is sound for every function) -/
+def affRoot : Root := fun g a b =>
+  if a ≤ a + g a / 2 ∧ a + g a / 2 ≤ b ∧ g (a + g a / 2) = 0 then some (a + g a / 2) else none
+
+example : RootSound 0 affRoot ∧ RootCompleteFor (fun x => 10 - 2 * x) affRoot := by
+  constructor
+  · intro g a b r h
+    unfold affRoot at h
+    split at h
+    · rename_i hc
+      cases h
+      exact ⟨hc.1, hc.2.1, by rw [hc.2.2]; simp, by rw [hc.2.2]⟩
+    · cases h
+  · intro q a b hab hs
+    unfold affRoot
+    have hga : 0 ≤ 10 - 2 * a - q := by
+      by_contra hneg
+      have h1 : 10 - 2 * a - q < 0 := not_le.1 hneg
+      have h2 : 10 - 2 * b - q < 0 := by linarith
+      have : 0 < (10 - 2 * a - q) * (10 - 2 * b - q) := mul_pos_of_neg_of_neg h1 h2
+      linarith
+    have hgb : 10 - 2 * b - q ≤ 0 := by
+      by_contra hpos
+      have h2 : 0 < 10 - 2 * b - q := not_le.1 hpos
+      have h1 : 0 < 10 - 2 * a - q := by linarith
+      have : 0 < (10 - 2 * a - q) * (10 - 2 * b - q) := mul_pos h1 h2
+      linarith
+    rw [if_pos]
+    · rfl
+    · refine ⟨by linarith, by linarith, by ring⟩
+
+example :
+    let c : RevCfg := { f := fun x => 10 - 2 * x, dl := 0, du := 3, ld := none, ud := none, detect := true }
+    reverseCall c (fun g a _ => some (a + g a / 2)) [some 6, none, some 10] = .ok [some 2, none, some 0] := by
+  decide +kernel
+
+example : Chrono 0 [(10, Ev.pre), (10, Ev.editCsv 2), (12, Ev.pre), (12, Ev.editIni 1), (30, Ev.pre)] := by
+  simp [Chrono]
+
+example :
+    let s0 : St := { data := 1, csvM := 1, ini := none, cache := none, served := [] }
+    (run s0 [(10, .pre), (10, .editCsv 2), (12, .pre), (12, .editIni 1), (30, .pre), (31, .pre)]).served
+      = [((1, none), false), ((2, none), false), ((2, some 1), false), ((2, some 1), true)] := by
+  decide
 
 end RtcVerif.C20
